@@ -21,7 +21,7 @@ def run(ctx):
         h = st['hist']
         if len(h) != maxops:
             continue
-        cases.append({'mode': 'record', 'torn': True, 'steps': h, **CONSTS})
+        cases.append({'mode': 'record', 'torn': True, 'steps': h, 'warm': ctx.rng.choice([0, 0, 7, 8, 9, 97, 98]), **CONSTS})
     total_hist = len(cases)
     budget = 600 if tier == 'quick' else 12000
     chosen = vlib.sample_list(ctx.rng, cases, budget)
